@@ -3,12 +3,11 @@ package checks
 import (
 	"bytes"
 	"crypto/sha256"
+	"encoding/binary"
 	"fmt"
 	"sync"
 	"testing"
 	"time"
-
-	"verif/core/sim"
 
 	tssnet "github.com/IBM/TSS/net"
 	"github.com/IBM/TSS/testutil/tlsgen"
@@ -55,6 +54,7 @@ var c16Variants = []string{
 	"lib-replayed-handshake",                  // 31 the library's client sends, on a new connection, the handshake it produced for an earlier one
 	"replayed-with-stale-timestamp",           // 32 handshake for another connection, correctly signed, whose signed timestamp is 31 s .. 1 h old (recorded earlier / lagging clock)
 	"replayed-with-future-timestamp",          // 33 the same with a timestamp ahead of the server's clock
+	"domain-as-other-asn1-string-type",        // 34 own binding, registered ECDSA identity; the domain is encoded as T61String / GeneralString / IA5String / UTF8String / BMPString with bytes that are not valid UTF-8 (the decoder's string types are laxer than the encoder's)
 }
 
 type c16Conn struct {
@@ -99,7 +99,7 @@ type c16World struct {
 // libSend opens a connection with the library's own client side, lets auth build the handshake from the
 // binding the library computed for that connection, and sends one frame with the marker.
 func (w *c16World) libSend(domain string, auth func(binding []byte) tssnet.Handshake, marker string) {
-	rp := tssnet.NewSocketRemoteParty(tssnet.PartyConnectionConfig{AuthFunc: auth, Domain: domain, Id: 0, Endpoint: w.srv.Addr, TlsCAs: w.srv.Pool}, &sim.Logger{})
+	rp := tssnet.NewSocketRemoteParty(tssnet.PartyConnectionConfig{AuthFunc: auth, Domain: domain, Id: 0, Endpoint: w.srv.Addr, TlsCAs: w.srv.Pool}, &nopLogger{})
 	tssnet.SocketRemoteParties{0: rp}.Send(uint8(tssnet.MsgTypeMPC), netTopic(1), []byte(marker), 0)
 }
 
@@ -333,6 +333,18 @@ func runC16(c c16Case) *vh.Outcome {
 			semantic = false
 		case "identity-swapped-with-binding":
 			h.Identity, h.TLSBinding = h.TLSBinding, h.Identity
+		case "domain-as-other-asn1-string-type":
+			h = signedHandshake(id, "AAAA", rc.binding)
+			raw := h.Bytes()
+			if i := bytes.Index(raw, []byte{19, 4, 'A', 'A', 'A', 'A'}); i >= 0 { // PrintableString "AAAA"
+				raw[i] = []byte{20, 27, 22, 12, 30, 26, 18}[cn.Arg%7] // T61, General, IA5, UTF8, BMP, Visible, Numeric
+				fill := [][]byte{{0xff, 0xfe}, {0xc3, 0x28}, {0xed, 0xa0}, {0x80, 0x80}}[(cn.Arg/7)%4]
+				raw[i+2], raw[i+3] = fill[0], fill[1]
+			}
+			wire = make([]byte, 2+len(raw))
+			binary.LittleEndian.PutUint16(wire, uint16(len(raw)))
+			copy(wire[2:], raw)
+			semantic = false
 		}
 		if wire == nil {
 			wire = encodeHandshake(h)
